@@ -293,8 +293,8 @@ by `n'` (consistent with the change of chain length) -/
 theorem replace_bucket {h : K → Nat} {m : HM K V} (inv : Inv h m) (key : K) (c' : List (K × V)) (n' : Nat)
     (hb : ∀ x ∈ c', binOf h m.buckets.length x.1 = binOf h m.buckets.length key) (hn : KeysNodup c')
     (hcount : n' + (chainOf h m key).length = m.n + c'.length) :
-    Inv h ⟨m.buckets.set (binOf h m.buckets.length key) c', n'⟩ ∧
-    ∀ k, abs (⟨m.buckets.set (binOf h m.buckets.length key) c', n'⟩ : HM K V) k =
+    Inv h ⟨m.buckets.set (binOf h m.buckets.length key) c', n', m.rc⟩ ∧
+    ∀ k, abs (⟨m.buckets.set (binOf h m.buckets.length key) c', n', m.rc⟩ : HM K V) k =
       if binOf h m.buckets.length k = binOf h m.buckets.length key then lookup k c' else abs m k := by
   have w := inv.wf
   have hi := binOf_lt h w.nb_pos key
@@ -313,7 +313,7 @@ theorem replace_bucket {h : K → Nat} {m : HM K V} (inv : Inv h m) (key : K) (c
 /-- `operator[]` without the `rehash()` call -/
 def indexCore (h : K → Nat) (dflt : V) (m : HM K V) (key : K) : HM K V :=
   let r := chainIndex key dflt (chainOf h m key)
-  ⟨m.buckets.set (binOf h m.buckets.length key) r.1, if r.2 then m.n + 1 else m.n⟩
+  ⟨m.buckets.set (binOf h m.buckets.length key) r.1, if r.2 then m.n + 1 else m.n, m.rc⟩
 
 theorem index_eq (h : K → Nat) (dflt : V) (m : HM K V) (key : K) :
     index h dflt m key = indexCore h dflt (rehash h m) key := rfl
@@ -474,14 +474,19 @@ theorem empty_inv (h : K → Nat) {nb : Nat} (hnb : 0 < nb) : Inv h (empty nb : 
 
 theorem clear_spec {h : K → Nat} {m : HM K V} (inv : Inv h m) :
     Inv h (clear m) ∧ (clear m).buckets.length = m.buckets.length ∧ ∀ k, abs (clear m) k = none := by
-  have hcl : clear m = empty m.buckets.length := by
+  have hb : (clear m).buckets = (empty m.buckets.length : HM K V).buckets := by
     unfold clear empty
-    congr 1
     apply List.ext_getElem (by simp)
     intro i h1 h2; simp
-  rw [hcl]
-  have := empty_inv (V := V) h inv.wf.nb_pos
-  exact ⟨this.1, by simp [empty], this.2⟩
+  have E := empty_inv (V := V) h inv.wf.nb_pos
+  refine ⟨⟨by rw [hb]; exact E.1.wf, ?_⟩, by simp [clear], ?_⟩
+  · have := E.1.count
+    simp only [enum] at this ⊢
+    rw [hb, ← this]; rfl
+  · intro k
+    have := E.2 k
+    simp only [abs, enum] at this ⊢
+    rw [hb]; exact this
 
 end AslProofs.HashMap
 
@@ -507,12 +512,12 @@ def rstep (h : K → Nat) (nb : Nat) (b : List (List (K × V))) (kv : K × V) : 
 theorem rehashInto_eq (h : K → Nat) (nb : Nat) (es : List (K × V)) :
     rehashInto h nb es = es.foldl (rstep h nb) (List.replicate nb []) := rfl
 
-theorem inv_of_wf {h : K → Nat} {B : List (List (K × V))} (w : WF h B) : Inv h ⟨B, B.flatten.length⟩ := ⟨w, rfl⟩
+theorem inv_of_wf {h : K → Nat} {B : List (List (K × V))} (w : WF h B) : Inv h ⟨B, B.flatten.length, 1⟩ := ⟨w, rfl⟩
 
 theorem rstep_eq_indexCore {h : K → Nat} {B : List (List (K × V))} (w : WF h B) (x : K × V)
     (habs : lookup x.1 B.flatten = none) :
-    rstep h B.length B x = (indexCore h x.2 ⟨B, B.flatten.length⟩ x.1).buckets := by
-  have hc := abs_eq_chain (m := ⟨B, B.flatten.length⟩) w x.1
+    rstep h B.length B x = (indexCore h x.2 ⟨B, B.flatten.length, 1⟩ x.1).buckets := by
+  have hc := abs_eq_chain (m := ⟨B, B.flatten.length, 1⟩) w x.1
   simp only [abs, enum] at hc
   rw [habs] at hc
   unfold indexCore
@@ -545,10 +550,10 @@ theorem foldl_rstep_spec {h : K → Nat} : ∀ (es : List (K × V)), KeysNodup e
       have := inv1.count
       simp only [enum] at this
       rw [hstep, ← this]
-      have hc := abs_eq_chain (m := ⟨B, B.flatten.length⟩) w x.1
+      have hc := abs_eq_chain (m := ⟨B, B.flatten.length, 1⟩) w x.1
       simp only [abs, enum] at hc
       rw [hx] at hc
-      exact indexCore_n_absent h x.2 ⟨B, B.flatten.length⟩ x.1 hc.symm
+      exact indexCore_n_absent h x.2 ⟨B, B.flatten.length, 1⟩ x.1 hc.symm
     have habs1' : ∀ k, lookup k (rstep h B.length B x).flatten = if k = x.1 then some x.2 else lookup k B.flatten := by
       intro k
       have := habs1 k
